@@ -2,24 +2,17 @@ import NmVerif.Lemmas.SliceDyn
 /-
   C05 — Slicing follows Python/NumPy basic-indexing semantics.
 
-  MODEL  NmVerif.Slice (Index/Slice.lean): compute_range / compute_step / compute_index, the binary32 length, the packed
-         (shape_slice / slice) and dynamic (shape_dynamic_slice / dynamic_slice) loops, view::slice.
+  MODEL  NmVerif.Slice (Index/Slice.lean): slice_indices / compute_range / compute_step / compute_index, the integer
+         ceiling length, the packed (shape_slice / slice) and dynamic (shape_dynamic_slice / dynamic_slice) loops with
+         the trailing-axes copy, view::slice — the headers after the `fix:` commits fixes/C05-*.diff.
   SPEC   Python `slice.indices` (pyIndices/pyLen, transcribed from PySlice_AdjustIndices) per axis; NumPy basic indexing
-         (specSlice: integers drop their axis, one ellipsis = the missing full slices, element j ↦ start' + j*step).
-  Dom    `domRange` per range entry (Lemmas/Slice.lean), `domEntries` for a whole index (Lemmas/SliceND.lean):
-         the region where the unchanged implementation agrees with Python; outside it see the `_counterexample`s.
+         (specSlice: integers drop their axis, one ellipsis = the missing full slices, unaddressed trailing axes kept
+         whole, element j ↦ start' + j*step).
+  Dom    `domEntries` (Lemmas/SliceND.lean) = every valid basic index: at most one ellipsis, no more entries than axes,
+         integers in [-n, n), step ≠ 0, extents below 2^62.  No off-domain classes are left.
 -/
 namespace NmVerif.Props.C05
 open NmVerif NmVerif.Slice
-
-/-! ## the length computation `ceil(float(range)/step)` -/
-
-/-- below 2^24 the binary32 computation of the length is the exact ceiling division (F12 is confined to larger ranges) -/
-theorem length_exact_below_2p24 (s k : Int) (hs : 0 ≤ s) (hs2 : s < 16777216) (hk : 0 < k) (hk2 : k < 16777216) :
-    lengthOf s k = some (if s = 0 then 0 else (s - 1) / k + 1) :=
-  lengthOf_exact s k hs hs2 hk hk2
-
-example : lengthOf 7 3 = some 3 := by decide
 
 /-! ## SPEC sanity (all inputs): Python's own rule never leaves the axis -/
 
@@ -40,35 +33,47 @@ example : pyAxis 5 (some (-2)) none (some (-2)) = some (2, 3, -2) := by decide
 
 /-! ## one range entry -/
 
-/-- on `domRange` the implementation's extent and every element equal Python's `slice.indices` rule, for every extent
-    `n < 2^24`; elements stay inside the axis -/
-theorem range_eq_python_on_Dom (n : Nat) (a b c : Option Int) (h : domRange n a b c = true) :
+/-- for every extent (a `size_t`) and every start/stop/step with step ≠ 0 — omitted, negative, out of range, empty
+    included — the implementation's extent and every element equal Python's `slice.indices` rule, and elements stay
+    inside the axis -/
+theorem range_eq_python (n : Nat) (a b c : Option Int) (hn : n < 18446744073709551616) (hk : stepVal c ≠ 0) :
     ∃ l f k, pyAxis n a b c = some (l, f, k) ∧ sliceLen n a b c = some (l : Int) ∧
       ∀ j : Nat, j < l → computeIndex n a b c j = f + j * k ∧ 0 ≤ f + j * k ∧ f + j * k < n :=
-  range_entry_dom n a b c h
+  range_entry_all n a b c hn hk
 
--- non-vacuity: a[-3:-1:2] on n=5, a[::-2] on n=5, a[3:0:-1] on n=4, a[2:] with 2-part tuple, a[7:7]
-example : domRange 5 (some (-3)) (some (-1)) (some 2) = true := by decide
-example : domRange 5 none none (some (-2)) = true := by decide
-example : domRange 4 (some 3) (some 0) (some (-1)) = true := by decide
-example : domRange 6 (some 2) none none = true := by decide
-example : domRange 9 (some 7) (some 7) (some 3) = true := by decide
+/-- the normalisation itself: `slice_indices` = `PySlice_AdjustIndices`, for all inputs -/
+theorem slice_indices_eq_python (n : Nat) (a b c : Option Int) :
+    sliceIndices n a b c = (pyStart n a c, pyStop n b c, stepVal c) :=
+  sliceIndices_eq_python n a b c
+
+-- the formerly wrong classes: a[2:1] (empty), a[-6:2] (clamped), a[-1:], a[-2:1], a[3:1:-1], a[:] on 2^24+1
+example : sliceLen 4 (some 2) (some 1) (some 1) = some 0 := by decide
+example : sliceLen 4 (some (-6)) (some 2) (some 1) = some 2 ∧ computeIndex 4 (some (-6)) (some 2) (some 1) 1 = 1 := by decide
+example : sliceLen 5 (some (-1)) none none = some 1 ∧ computeIndex 5 (some (-1)) none none 0 = 4 := by decide
+example : computeIndex 2 (some (-2)) (some 1) (some 1) 0 = 0 := by decide
+example : sliceLen 4 (some 3) (some 1) (some (-1)) = some 2 ∧ computeIndex 4 (some 3) (some 1) (some (-1)) 1 = 2 := by decide
+example : sliceLen 16777217 none none none = some 16777217 := by decide
 
 /-! ## a whole index: any rank, integers and one ellipsis in any position -/
 
-/-- packed encoding (`shape_slice` / `slice`): on Dom the shape is the reference shape (integers drop their axis, the
-    ellipsis expands to the missing full slices) and every destination index maps to the reference source index, which
-    lies inside the source shape -/
-theorem slice_eq_python_on_Dom (shape : List Nat) (es : List Entry) (h : domEntries shape es = true) :
+/-- packed encoding (`shape_slice` / `slice`), every valid basic index: the shape is the reference shape (integers drop
+    their axis, the ellipsis expands to the missing full slices, unaddressed trailing axes are kept) and every
+    destination index maps to the reference source index, which lies inside the source shape -/
+theorem slice_eq_python (shape : List Nat) (es : List Entry) (h : domEntries shape es = true) :
     ∃ sels, specSlice shape es = some sels ∧ shapeSlice shape es = some (specShape sels) ∧
       ∀ d, InShape d (specShape sels) →
         ∃ i, specIdx sels d = some i ∧ sliceIdx shape es d = some i ∧ InShape i shape :=
   slice_dom shape es h
 
--- non-vacuity: a[1, ..., ::-1] on (2,3,4);  a[-1, 0:2] on (3,4);  a[..., 1:3, -2] on (2,5,4,3)
+-- non-vacuity: a[1, ..., ::-1] on (2,3,4);  a[-1, 0:2] on (3,4);  a[..., 1:3, -2] on (2,5,4,3);  a[1:4:2] on (5,2);
+-- a[0, ...] on (2,);  a[7:-9:-2, -1:] on (5,3)
 example : domEntries [2, 3, 4] [.int 1, .ellipsis, .range none none (some (-1))] = true := by decide
 example : domEntries [3, 4] [.int (-1), .range2 (some 0) (some 2)] = true := by decide
 example : domEntries [2, 5, 4, 3] [.ellipsis, .range (some 1) (some 3) none, .int (-2)] = true := by decide
+example : domEntries [5, 2] [.range (some 1) (some 4) (some 2)] = true := by decide
+example : domEntries [2] [.int 0, .ellipsis] = true := by decide
+example : domEntries [5, 3] [.range (some 7) (some (-9)) (some (-2)), .range2 (some (-1)) none] = true := by decide
+example : shapeSlice [5, 2] [.range (some 1) (some 4) (some 2)] = some [2, 2] := by decide
 example : shapeSlice [2, 3, 4] [.int 1, .ellipsis, .range none none (some (-1))] = some [3, 4] := by decide
 example : sliceIdx [2, 3, 4] [.int 1, .ellipsis, .range none none (some (-1))] [2, 0] = some [1, 2, 3] := by decide
 
@@ -85,8 +90,8 @@ theorem packed_eq_dynamic_index (shape : List Nat) (es : List Entry) (d r : List
 
 example : shapeDynamicSlice [2, 3, 4] [.int 1, .ellipsis, .range none none (some (-1))] = some [3, 4] := by decide
 
-/-- dynamic encoding on Dom: same statement as `slice_eq_python_on_Dom` -/
-theorem dynamic_slice_eq_python_on_Dom (shape : List Nat) (es : List Entry) (h : domEntries shape es = true) :
+/-- dynamic encoding: same statement as `slice_eq_python` -/
+theorem dynamic_slice_eq_python (shape : List Nat) (es : List Entry) (h : domEntries shape es = true) :
     ∃ sels, specSlice shape es = some sels ∧ shapeDynamicSlice shape es = some (specShape sels) ∧
       ∀ d, InShape d (specShape sels) →
         ∃ i, specIdx sels d = some i ∧ dynamicSlice shape es d = some i ∧ InShape i shape := by
@@ -98,8 +103,8 @@ theorem dynamic_slice_eq_python_on_Dom (shape : List Nat) (es : List Entry) (h :
 
 /-! ## the slice view (for C02 / C10) -/
 
-/-- `xView_shape` + `xView_elem`: on Dom the slice view exists, has the reference shape and the reference element map -/
-theorem sliceView_eq_spec_on_Dom (src : Shape) (es : List Entry) (h : domEntries src es = true) :
+/-- `xView_shape` + `xView_elem`: for every valid basic index the slice view exists, has the reference shape and the reference element map -/
+theorem sliceView_eq_spec (src : Shape) (es : List Entry) (h : domEntries src es = true) :
     ∃ v s, sliceView src es = some v ∧ specView src es = some s ∧ v.src = src ∧ v.dst = s.dst ∧
       ∀ d, InShape d v.dst → v.map d = s.map d := by
   obtain ⟨sels, h1, h2, h3⟩ := slice_dom src es h
@@ -110,7 +115,7 @@ theorem sliceView_eq_spec_on_Dom (src : Shape) (es : List Entry) (h : domEntries
     obtain ⟨i, a1, a2, _⟩ := h3 d hd
     simp [a1, a2]
 
-/-- `xView_inBounds` (feeds C02): on Dom every access of the slice view stays inside the source shape -/
+/-- `xView_inBounds` (feeds C02): every access of the slice view stays inside the source shape -/
 theorem slice_indices_inShape (src : Shape) (es : List Entry) (h : domEntries src es = true) (v : IxView)
     (hv : sliceView src es = some v) : v.InBounds := by
   obtain ⟨sels, _, h2, h3⟩ := slice_dom src es h
@@ -126,7 +131,7 @@ theorem slice_indices_inShape (src : Shape) (es : List Entry) (h : domEntries sr
 /-- the same for the run-time encoding (`view::apply_slice` with a list of either) -/
 theorem dynamic_slice_indices_inShape (src : Shape) (es : List Entry) (h : domEntries src es = true) (v : IxView)
     (hv : dynamicSliceView src es = some v) : v.InBounds := by
-  obtain ⟨sels, _, h2, h3⟩ := dynamic_slice_eq_python_on_Dom src es h
+  obtain ⟨sels, _, h2, h3⟩ := dynamic_slice_eq_python src es h
   simp only [dynamicSliceView, h2, Option.map_some, Option.some.injEq] at hv
   subst hv
   intro d hd i hi
@@ -137,52 +142,5 @@ theorem dynamic_slice_indices_inShape (src : Shape) (es : List Entry) (h : domEn
   exact a3
 
 example : (sliceView [3, 4] [.int (-1), .range2 (some 0) (some 2)]).map (·.provenance) = some [8, 9] := by decide
-
-/-! ## off-domain classes of the unchanged implementation (known findings): MODEL ≠ SPEC on a witness -/
-
-/-- empty Python result, `a[2:1]` on n=4: the implementation uses `|stop - start|` -/
-theorem empty_range_counterexample :
-    shapeSlice [4] [.range (some 2) (some 1) (some 1)] = some [1] ∧
-    (specSlice [4] [.range (some 2) (some 1) (some 1)]).map specShape = some [0] := by decide
-
-/-- out-of-range bounds are not clamped, `a[-6:2]` on n=4 -/
-theorem no_clamping_counterexample :
-    shapeSlice [4] [.range (some (-6)) (some 2) (some 1)] = some [4] ∧
-    (specSlice [4] [.range (some (-6)) (some 2) (some 1)]).map specShape = some [2] := by decide
-
-/-- in-range negative start with omitted stop, `a[-1:]` on n=5: extent `n + 1`, first index `n + 1` -/
-theorem neg_start_none_stop_counterexample :
-    shapeSlice [5] [.range (some (-1)) none none] = some [6] ∧ sliceIdx [5] [.range (some (-1)) none none] [0] = some [6] ∧
-    (specSlice [5] [.range (some (-1)) none none]).map specShape = some [1] ∧
-    (specSlice [5] [.range (some (-1)) none none]).bind (specIdx · [0]) = some [4] := by decide
-
-/-- in-range negative start with in-range positive stop, `a[-2:1]` on n=2: first index `stop + start` wraps -/
-theorem neg_start_pos_stop_counterexample :
-    sliceIdx [2] [.range (some (-2)) (some 1) (some 1)] [0] = some [18446744073709551615] ∧
-    (specSlice [2] [.range (some (-2)) (some 1) (some 1)]).bind (specIdx · [0]) = some [0] := by decide
-
-/-- negative step with an integer stop, `a[3:1:-1]` on n=4: walk starts at `stop - 1` -/
-theorem neg_step_int_stop_counterexample :
-    sliceIdx [4] [.range (some 3) (some 1) (some (-1))] [0] = some [0] ∧
-    (specSlice [4] [.range (some 3) (some 1) (some (-1))]).bind (specIdx · [0]) = some [3] := by decide
-
-/-- fewer entries than axes and no ellipsis, `a[1:4:2]` on (5,2): the trailing extent stays 0 -/
-theorem missing_trailing_axes_counterexample :
-    shapeSlice [5, 2] [.range (some 1) (some 4) (some 2)] = some [2, 0] ∧
-    (specSlice [5, 2] [.range (some 1) (some 4) (some 2)]).map specShape = some [2, 2] := by decide
-
-/-- packed encoding, ellipsis in last position taking no axis, `a[0, ...]` on n=2: `shape[dim]` is read -/
-theorem trailing_empty_ellipsis_counterexample :
-    shapeSlice [2] [.int 0, .ellipsis] = none ∧ (specSlice [2] [.int 0, .ellipsis]).map specShape = some [] := by decide
-
-/-- `view::slice(a, tuple{0,2})` on (4,5): the single range is read as the two integers `a[0,2]` -/
-theorem single_range_ctad_counterexample :
-    shapeSlice [4, 5] (ctadCollapse [.range2 (some 0) (some 2)]) = some [] ∧
-    (specSlice [4, 5] [.range2 (some 0) (some 2)]).map specShape = some [2, 5] := by decide
-
-/-- binary32 length, `a[:]` on n = 2^24+1 (F12) -/
-theorem float_length_counterexample :
-    shapeSlice [16777217] [.range none none none] = some [16777216] ∧
-    (specSlice [16777217] [.range none none none]).map specShape = some [16777217] := by decide
 
 end NmVerif.Props.C05
